@@ -47,7 +47,7 @@ def native_search(lang: str, st: K.State, quick: bool):
         return tok in kw or any(p.match(tok) for p in pats(ty))
 
     cands = set()
-    for n in range(1, 3 if quick else 4):
+    for n in range(1, 4):
         for t in itertools.product(ALPHA, repeat=n):
             cands.add("".join(t))
     for w in st.kw:
@@ -72,11 +72,48 @@ def native_search(lang: str, st: K.State, quick: bool):
                 why = f"result {r!r} is reserved"
             elif ident.match(tok) and not reserved(tok, ty) and not any(p.search(tok) for p in rules(ty)) and r != tok:
                 why = f"clean identifier changed to {r!r}"
+            elif any(p.search(r) for p in rules(ty)):
+                # not part of the proved theorem (the contracts on re.sub are too coarse for it): the result should contain
+                # nothing the language's own encoding rules would still rewrite (e.g. a trailing `__` in C++)
+                why = f"result {r!r} still contains a sequence the encoding rules rewrite"
             if why:
                 native_search.evaluations = getattr(native_search, "evaluations", 0) + n
                 return {"input": {"language": lang, "id_type": ty, "token": tok}, "why": why, "evaluations": n}
     native_search.evaluations = getattr(native_search, "evaluations", 0) + n
     return None
+
+
+# independent oracle for "keyword of that language": ISO C11 6.4.1, ISO C++20 [lex.key] + alternative tokens, and for
+# Python the running interpreter's keyword.kwlist + dir(builtins) -- the configured reserved list must cover them
+SPEC_KEYWORDS = {
+    "c": "auto break case char const continue default do double else enum extern float for goto if inline int long register restrict return short signed sizeof static struct switch "
+         "typedef union unsigned void volatile while _Alignas _Alignof _Atomic _Bool _Complex _Generic _Imaginary _Noreturn _Static_assert _Thread_local".split(),
+    "cpp": "alignas alignof and and_eq asm auto bitand bitor bool break case catch char char8_t char16_t char32_t class compl concept const consteval constexpr constinit const_cast continue "
+           "co_await co_return co_yield decltype default delete do double dynamic_cast else enum explicit export extern false float for friend goto if inline int long mutable namespace new "
+           "noexcept not not_eq nullptr operator or or_eq private protected public register reinterpret_cast requires return short signed sizeof static static_assert static_cast struct switch "
+           "template this thread_local throw true try typedef typeid typename union unsigned using virtual void volatile wchar_t while xor xor_eq".split(),
+}
+
+
+def keyword_coverage(run, lang: str, st):
+    import builtins
+    import keyword
+    spec = SPEC_KEYWORDS.get(lang) or (list(keyword.kwlist) + dir(builtins))
+    missing = sorted(set(spec) - set(st.kw))
+    name = f"{lang}#configured-reserved-identifiers-cover-the-language-keywords"
+    run.add_check(name, not missing, "finite set inclusion (ISO keyword list vs the real encoder's reserved list)", 0, f"{len(spec)} keywords; missing: {missing}")
+    if missing:
+        from nunavut.lang import LanguageContextBuilder
+        L = LanguageContextBuilder(include_experimental_languages=True).set_target_language(lang).create().get_target_language()
+        got = {}
+        for w in missing[:5]:
+            try:
+                got[w] = L.filter_id(w, "any")
+            except Exception as ex:  # an error is an allowed outcome
+                got[w] = f"raises {type(ex).__name__}"
+        bad = {w: r for w, r in got.items() if r == w}
+        run.fail(report.Failure(name, "post", f"{lang}: language keywords {missing} are not reserved by the encoder's configuration" + (f"; real code returns them unchanged: {bad}" if bad else ""),
+                                {"missing": missing, "filter_id": got}, bool(bad)))
 
 
 def filter_id_shape(run, ix: efx.PyIndex, lang: str):
@@ -130,10 +167,11 @@ def main():
             wit[c.qualname + (f"[{c.label}]" if c.label else "")] = w
         driver.verify_contracts(run, eng, cs, witness=wit)
         filter_id_shape(run, ix, lang)
+        keyword_coverage(run, lang, st)
         # bounded stand-in (never counted as proved)
         found = native_search(lang, st, args.tier != "thorough")
         ev = found["evaluations"] if found else None
-        run.add_bounded(f"{lang}:filter_id-exhaustive-enumeration", f"strings up to length {2 if args.tier != 'thorough' else 3} over {len(ALPHA)} symbols + reserved-word variants x {len(ID_TYPES)} categories",
+        run.add_bounded(f"{lang}:filter_id-exhaustive-enumeration", f"strings up to length 3 over {len(ALPHA)} symbols + reserved-word variants x {len(ID_TYPES)} categories",
                         ev or getattr(native_search, "evaluations", 0), found is None, "" if found is None else f"{found['input']}: {found['why']}")
         if found is not None and not any(f.reproduced for f in run.failures):
             run.fail(report.Failure(f"{lang}:filter_id#bounded-enumeration", "post", f"real code: {found['input']}: {found['why']}", {"witness": found}, True))
